@@ -142,6 +142,11 @@ def run_job(job):
             if r.status == "pruned":
                 out["pruned"] += 1
                 continue
+            if r.status == "cutoff":
+                out["cut"] += 1
+                out.setdefault("cut_reasons", {})
+                out["cut_reasons"][r.error] = out["cut_reasons"].get(r.error, 0) + 1
+                continue
             if r.status != "ok":
                 out["problems"].append({"kind": r.status, "error": (r.error or "")[-1500:], "trace": _tr(r.trace)})
                 continue
@@ -280,7 +285,15 @@ def main(mod):
     skipped = []
     ctx = mp.get_context("fork")
     nproc = max(1, min(a.procs, len(jobs)))
+    import signal
+
     with ctx.Pool(nproc, initializer=_worker_init, maxtasksperchild=getattr(mod, "MAXTASKS", 50)) as pool:
+
+        def _term(signum, frame):
+            pool.terminate()
+            os._exit(143)
+
+        signal.signal(signal.SIGTERM, _term)
         pending = []
         it = iter(jobs)
         # submit lazily so that the budget can stop optional jobs
@@ -396,6 +409,14 @@ def finish(mod, a, seed, t0, jobs, results, skipped):
         "%s %s: jobs=%d paths=%d (ok %d, pruned %d, cut %d) VCs=%d discharged=%d validated=%d solver=%.1fs wall=%.1fs -> exit %d"
         % (pid, a.tier, len(results), tot["paths"], tot["ok"], tot["pruned"], tot["cut"], tot["vcs"], tot["vc_ok"], tot["validated"], solver_time, wall, rc)
     )
+    slow = sorted(results, key=lambda r: -r.get("wall", 0))[:5]
+    print("  slowest jobs: " + ", ".join("%s %.0fs/%dp" % (r["label"], r.get("wall", 0), r.get("paths", 0)) for r in slow))
+    cuts = {}
+    for r in results:
+        for k, n in r.get("cut_reasons", {}).items():
+            cuts[k] = cuts.get(k, 0) + n
+    if cuts:
+        print("  cut paths: %s" % cuts)
     if not a.no_evidence and not a.only:
         ev = {
             "property_id": pid,
